@@ -161,16 +161,18 @@ theorem reject_is_le_zero : Gen.distance_reject = (.le, 0, 1) := by decide
 theorem rejected_fin (q : Rat) : rejected (.fin q) = decide (q ≤ 0) := by
   simp [rejected, reject_is_le_zero, cmpPF, ratOf]
 
-theorem mulFactor_fin {v : PyFloat} {f m : Rat} (hf : 0 < f) (h : mulFactor v f = .fin m) :
-    ∃ q, v = .fin q ∧ m = q * f := by
+theorem mulFactor_fin {rnd : Rat → Rat} {v : PyFloat} {f m : Rat} (hf : 0 < f) (h : mulFactor rnd v f = .fin m) :
+    ∃ q, v = .fin q ∧ m = rnd (q * rnd f) := by
   cases v with
   | nan => simp [mulFactor] at h
   | pinf => simp [mulFactor, hf] at h
   | ninf => simp [mulFactor, hf] at h
   | fin q => simp only [mulFactor, PyFloat.fin.injEq] at h; exact ⟨q, rfl, h.symm⟩
 
-/-- every accepted finite distance is positive -/
-theorem getDistance_fin_pos {s : List Char} {m : Rat} (h : getDistance s = .val (.fin m)) : 0 < m := by
+/-- every accepted finite distance is positive (for a rounding that keeps positive numbers positive,
+    i.e. no underflow to zero) -/
+theorem getDistance_fin_pos {rnd : Rat → Rat} (hpos : ∀ x, 0 < x → 0 < rnd x) {s : List Char} {m : Rat}
+    (h : getDistance rnd s = .val (.fin m)) : 0 < m := by
   unfold getDistance at h
   simp only at h
   split at h
@@ -188,7 +190,7 @@ theorem getDistance_fin_pos {s : List Char} {m : Rat} (h : getDistance s = .val 
           obtain ⟨q, rfl, rfl⟩ := mulFactor_fin (lookupUnit_pos hf) h
           rw [rejected_fin] at hrej
           have : 0 < q := by simpa using hrej
-          exact mul_pos this (lookupUnit_pos hf)
+          exact hpos _ (mul_pos this (hpos _ (lookupUnit_pos hf)))
 
 /-! ### soundness: whatever is accepted is `<number piece><unit text>` -/
 
@@ -223,12 +225,12 @@ theorem normUnit_default : normUnit Gen.default_unit.toList = Gen.default_unit.t
 /-- **soundness of the parser**: an accepted string is a number piece followed by the unit text
     (empty = the default unit); the piece passed `float` and the positivity test, the normalised unit
     is in the table, and the result is the product -/
-theorem getDistance_sound {s : List Char} {v : PyFloat} (h : getDistance s = .val v) :
+theorem getDistance_sound {rnd : Rat → Rat} {s : List Char} {v : PyFloat} (h : getDistance rnd s = .val v) :
     ∃ (numTok : Tok) (unit : List Char) (x : PyFloat) (f : Rat),
       s = numTok.chars ++ unit ∧ numTok.chars ≠ [] ∧ numTok ∈ splits s ∧
-      pyFloatTok numTok = some x ∧ rejected x = false ∧
+      pyFloatTok rnd numTok = some x ∧ rejected x = false ∧
       lookupUnit (normUnit (if unit = [] then Gen.default_unit.toList else unit)) = some f ∧
-      v = mulFactor x f := by
+      v = mulFactor rnd x f := by
   unfold getDistance at h
   simp only at h
   split at h
@@ -354,10 +356,11 @@ theorem specialFloat_not_fin (t : List Char) (q : Rat) : specialFloat t ≠ some
 
 /-- an accepted *finite* distance comes from a decimal literal with a positive value followed by a
     unit of the table (or nothing), and is their product -/
-theorem getDistance_fin_sound {s : List Char} {m : Rat} (h : getDistance s = .val (.fin m)) :
-    ∃ (lit unit : List Char) (f : Rat), s = lit ++ unit ∧ IsLit lit ∧ 0 < decVal lit ∧
+theorem getDistance_fin_sound {rnd : Rat → Rat} {s : List Char} {m : Rat}
+    (h : getDistance rnd s = .val (.fin m)) :
+    ∃ (lit unit : List Char) (f : Rat), s = lit ++ unit ∧ IsLit lit ∧ 0 < rnd (decVal lit) ∧
       lookupUnit (normUnit (if unit = [] then Gen.default_unit.toList else unit)) = some f ∧
-      m = decVal lit * f := by
+      m = rnd (rnd (decVal lit) * rnd f) := by
   obtain ⟨tk, unit, x, f, hs, hne, hmem, hx, hrej, hf, hv⟩ := getDistance_sound h
   obtain ⟨q, rfl, rfl⟩ := mulFactor_fin (lookupUnit_pos hf) hv.symm
   cases tk with
@@ -370,7 +373,7 @@ theorem getDistance_fin_sound {s : List Char} {m : Rat} (h : getDistance s = .va
 
 /-- the only other values that leave `_get_distance` are the IEEE specials spelled out in the string
     (`nan`, `inf`, `infinity`, any case, optional sign and blanks) -- `circle_kernel` rejects them -/
-theorem getDistance_nonfinite {s : List Char} {v : PyFloat} (h : getDistance s = .val v)
+theorem getDistance_nonfinite {rnd : Rat → Rat} {s : List Char} {v : PyFloat} (h : getDistance rnd s = .val v)
     (hv : ∀ q, v ≠ .fin q) :
     ∃ t unit : List Char, s = t ++ unit ∧ (specialFloat t).isSome := by
   obtain ⟨tk, unit, x, f, hs, hne, hmem, hx, hrej, hf, hv'⟩ := getDistance_sound h
@@ -378,7 +381,7 @@ theorem getDistance_nonfinite {s : List Char} {v : PyFloat} (h : getDistance s =
   | num lit =>
     simp only [pyFloatTok, Option.some.injEq] at hx
     subst hx
-    exact absurd hv' (by simpa [mulFactor] using hv (decVal lit * f))
+    exact absurd hv' (by simpa [mulFactor] using hv (rnd (rnd (decVal lit) * rnd f)))
   | txt t =>
     exact ⟨t, unit, hs, by simp only [pyFloatTok] at hx; simp [hx]⟩
 
@@ -511,13 +514,13 @@ theorem splits_ulit (d1 d2 u : List Char) (h1 : ∀ c ∈ d1, isDig c = true) (h
 /-- **reading of a well-formed string** (`parse_units`): a decimal literal followed by text without digits
     is rejected when the value is not positive or the normalised text is not a unit of the table, and
     otherwise converted with the table's factor (no text = the default unit) -/
-theorem getDistance_ulit (d1 d2 u : List Char) (h1 : ∀ c ∈ d1, isDig c = true) (h2 : ∀ c ∈ d2, isDig c = true)
+theorem getDistance_ulit (rnd : Rat → Rat) (d1 d2 u : List Char) (h1 : ∀ c ∈ d1, isDig c = true) (h2 : ∀ c ∈ d2, isDig c = true)
     (hne : d1 ≠ [] ∨ d2 ≠ []) (hu : ∀ c ∈ u, isDig c = false) :
-    getDistance (ulit d1 d2 ++ u) =
-      if decVal (ulit d1 d2) ≤ 0 then .err "positive"
+    getDistance rnd (ulit d1 d2 ++ u) =
+      if rnd (decVal (ulit d1 d2)) ≤ 0 then .err "positive"
       else match lookupUnit (normUnit (if u = [] then Gen.default_unit.toList else u)) with
         | none => .err "unit"
-        | some f => .val (.fin (decVal (ulit d1 d2) * f)) := by
+        | some f => .val (.fin (rnd (rnd (decVal (ulit d1 d2)) * rnd f))) := by
   unfold getDistance
   simp only
   rw [splits_ulit d1 d2 u h1 h2 hne hu]
@@ -528,12 +531,12 @@ theorem getDistance_ulit (d1 d2 u : List Char) (h1 : ∀ c ∈ d1, isDig c = tru
   rw [g0, g1, g2, g3]
   by_cases hu0 : u = []
   · simp only [hu0, if_true, List.length_singleton, pyFloatTok, mulFactor]
-    by_cases hp : decVal (ulit d1 d2) ≤ 0
+    by_cases hp : rnd (decVal (ulit d1 d2)) ≤ 0
     · simp [hp, rejected_fin]
     · simp [hp, rejected_fin]
       cases lookupUnit (normUnit Gen.default_unit.toList) <;> rfl
   · simp only [hu0, if_false, List.length_cons, List.length_nil, pyFloatTok, mulFactor, Tok.chars]
-    by_cases hp : decVal (ulit d1 d2) ≤ 0
+    by_cases hp : rnd (decVal (ulit d1 d2)) ≤ 0
     · simp [hp, rejected_fin]
     · simp [hp, rejected_fin]
       cases lookupUnit (normUnit u) <;> rfl
